@@ -77,7 +77,11 @@ func c09Recover(h *bsctypes.Header, chainID uint64) (common.Address, bool) {
 	if len(h.Extra) < 65 {
 		return common.Address{}, false
 	}
-	pub, err := crypto.Ecrecover(c09SealHash(h, chainID).Bytes(), h.Extra[len(h.Extra)-65:])
+	var pub []byte
+	var err error
+	if pan, _ := safely(func() { pub, err = crypto.Ecrecover(c09SealHash(h, chainID).Bytes(), h.Extra[len(h.Extra)-65:]) }); pan {
+		return common.Address{}, false // chain id >= 2^63: int64(chainId) is negative, rlp refuses it
+	}
 	if err != nil {
 		return common.Address{}, false
 	}
@@ -87,7 +91,11 @@ func c09Recover(h *bsctypes.Header, chainID uint64) (common.Address, bool) {
 }
 
 func c09Sign(h *bsctypes.Header, chainID uint64, key *ecdsa.PrivateKey) {
-	sig, err := crypto.Sign(c09SealHash(h, chainID).Bytes(), key)
+	var sig []byte
+	var err error
+	if pan, _ := safely(func() { sig, err = crypto.Sign(c09SealHash(h, chainID).Bytes(), key) }); pan {
+		return // chain id >= 2^63 cannot be sealed for (rlp refuses the negative int64): the seal stays zero
+	}
 	if err != nil {
 		panic(err)
 	}
@@ -474,7 +482,7 @@ func (w *c09World) apply(r *Rec, op string) string {
 		if a, ok := c09Recover(h, chainID); ok {
 			w.sealedBy[u] = a
 		}
-		w.lastEpoch, _ = bsctypes.ParseValidators(h.Extra)
+		w.lastEpoch, _ = c09ParseVals(h.Extra)
 		w.presVals, w.prevVals, w.switchAt, w.tp, w.maxN = vals, nil, 0, tp, len(c09Distinct(vals))
 		w.rawAfter = map[uint64]int{u: len(c09Distinct(vals))}
 		w.upgraded = true
@@ -572,6 +580,9 @@ func (w *c09World) apply(r *Rec, op string) string {
 			}
 			err = k.CreateClient(cctx, w.chain, cs, cons)
 		})
+		if (pan || err != nil) && c09CreateValid(chainID, epoch, h) {
+			w.find(r, "C09:valid-create-refused", "a client with a validly sealed epoch head, a non-empty list, epoch >= 1 and a chain id <= MaxInt64 was refused", fmt.Sprintf("err=%v panic=%v", err, pan), "created")
+		}
 		if pan {
 			r.Count("create.panic")
 			return "panic"
@@ -592,7 +603,7 @@ func (w *c09World) apply(r *Rec, op string) string {
 		if a, ok := c09Recover(h, chainID); ok {
 			w.sealedBy[h.Height.RevisionHeight] = a
 		}
-		w.lastEpoch, _ = bsctypes.ParseValidators(h.Extra)
+		w.lastEpoch, _ = c09ParseVals(h.Extra)
 		w.presVals, w.prevVals, w.tp, w.maxN = vals, nil, tp, len(c09Distinct(vals))
 		w.rawAfter[h.Height.RevisionHeight] = len(c09Distinct(vals))
 		w.accepted[h.Height.RevisionHeight] = h
@@ -643,6 +654,7 @@ func (w *c09World) apply(r *Rec, op string) string {
 		w.accepted[h.Height.RevisionHeight] = h
 		w.upgraded = false
 		w.ancestry(r)
+		w.abandoned(r)
 		return w.dump(w.ctx, h)
 	}
 	r.t.Fatalf("bad op %q", op)
@@ -656,6 +668,10 @@ func (w *c09World) oracle(r *Rec, before *bsctypes.ClientState, h *bsctypes.Head
 	num := h.Height.RevisionHeight
 	if w.head == nil || parent.Height != w.head.Height || !bytes.Equal(parent.Extra, w.head.Extra) {
 		w.find(r, "C09:head-not-last-accepted", "client head is not the last accepted header", fmt.Sprint(parent.Height), "last accepted header")
+	}
+	if h.Height.RevisionNumber != parent.Height.RevisionNumber {
+		w.find(r, "C09:accepted-under-other-revision", "the accepted header's height is not Height.Increment of the head: another revision number (neither the block hash nor the seal covers it)",
+			fmt.Sprint(h.Height), fmt.Sprintf("%d-%d", parent.Height.RevisionNumber, parent.Height.RevisionHeight+1))
 	}
 	if num != parent.Height.RevisionHeight+1 {
 		w.find(r, "C09:accepted-not-next-number", "accepted header is not head+1", fmt.Sprintf("head %d header %d", parent.Height.RevisionHeight, num), "number = head+1")
@@ -724,7 +740,7 @@ func (w *c09World) oracle(r *Rec, before *bsctypes.ClientState, h *bsctypes.Head
 		w.find(r, "C09:root-not-recorded", "consensus state of the accepted height is not <time, root>", fmt.Sprint(okc), "time/root of the header")
 	}
 	if num%before.Epoch == 0 {
-		w.lastEpoch, _ = bsctypes.ParseValidators(h.Extra)
+		w.lastEpoch, _ = c09ParseVals(h.Extra)
 		r.Count("accepted.epoch-header")
 	}
 	if !c09SameList(after.Validators, before.Validators) {
@@ -782,6 +798,63 @@ func (w *c09World) oracle(r *Rec, before *bsctypes.ClientState, h *bsctypes.Head
 	w.sealedBy[num] = signer
 	w.rawAfter[num] = len(c09Distinct(after.Validators))
 	w.head = h
+}
+
+// abandoned: no consensus state of an ABANDONED branch may sit at a block number the head has reached — every stored
+// state above the height the client was created / upgraded at and at or below the head's block number must be the
+// state of the header accepted for that block number on the head's ancestry (same full height, time and root).
+// (States above the head's block number are not usable: the proof checks refuse them.)
+func (w *c09World) abandoned(r *Rec) {
+	if w.head == nil {
+		return
+	}
+	hn := w.head.Height.RevisionHeight
+	for _, c := range w.consStates(w.ctx) {
+		if c.num <= w.startH || c.num > hn {
+			continue
+		}
+		ah := w.accepted[c.num]
+		if ah == nil || ah.Height.RevisionNumber != c.rev || ah.Time != c.time || !bytes.Equal(ah.Root, c.root) {
+			w.find(r, "C09:abandoned-branch-root-provable", "a consensus state that is not the accepted header's sits at a block number the head has reached (a root of an abandoned branch stays provable)",
+				fmt.Sprintf("%d-%d=%d:%s", c.rev, c.num, c.time, hx(c.root)), "only the states of the head's ancestry")
+			return
+		}
+	}
+}
+
+// c09ParseVals: the harness' own reading of the validator list an epoch header carries (the oracle must not depend on
+// the package's parser): whole 20-byte addresses between the 32-byte vanity and the 65-byte seal, at least one.
+func c09ParseVals(extra []byte) ([][]byte, error) {
+	if len(extra) < 97 {
+		return nil, fmt.Errorf("extra too short")
+	}
+	body := extra[32 : len(extra)-65]
+	if len(body)%20 != 0 || len(body) == 0 {
+		return nil, fmt.Errorf("not a non-empty list of whole addresses")
+	}
+	var out [][]byte
+	for i := 0; i < len(body); i += 20 {
+		out = append(out, append([]byte{}, body[i:i+20]...))
+	}
+	return out, nil
+}
+
+// c09CreateValid: the harness' own reading of what a creatable BSC client is (Validate + Initialize)
+func c09CreateValid(chainID, epoch uint64, h *bsctypes.Header) bool {
+	if epoch == 0 || chainID > 1<<63-1 || h.Height.IsZero() || h.Height.RevisionHeight%epoch != 0 {
+		return false
+	}
+	if len(h.Extra) < 97+20 || (len(h.Extra)-97)%20 != 0 || len(h.Bloom) > 256 || len(h.Nonce) > 8 {
+		return false
+	}
+	if common.BytesToHash(h.MixDigest) != (common.Hash{}) || common.BytesToHash(h.UncleHash) != c09UncleHash {
+		return false
+	}
+	if h.Height.RevisionHeight > 0 && new(big.Int).SetBytes(h.Difficulty).Uint64() == 0 {
+		return false
+	}
+	a, ok := c09Recover(h, chainID)
+	return ok && a == common.BytesToAddress(h.Coinbase)
 }
 
 // rawClients: raw key/value listing of both client stores (client state, consensus states, recentSingers/*,
@@ -870,6 +943,9 @@ func (w *c09World) invalidBecause(h *bsctypes.Header, bt uint64) string {
 	if h.Height.RevisionHeight != w.head.Height.RevisionHeight+1 {
 		return "number"
 	}
+	if h.Height.RevisionNumber != w.head.Height.RevisionNumber {
+		return "revision" // the next height is Height.Increment of the head: same revision
+	}
 	if ph := c09Hash(w.head); ph == "panic" || ph != hx(common.BytesToHash(h.ParentHash).Bytes()) {
 		return "parent-hash"
 	}
@@ -891,6 +967,13 @@ func (w *c09World) invalidBecause(h *bsctypes.Header, bt uint64) string {
 	for d := uint64(1); d <= uint64(w.maxN/2+1) && d <= num; d++ {
 		if who, known := w.sealedBy[num-d]; known && who == signer {
 			return "recent"
+		}
+	}
+	if num < uint64(w.maxN/2+1) { // number below the limit: every recorded sealer is excluded, wherever its record sits
+		for _, who := range w.sealedBy { // (after the 2^64-1 -> 0 wrap that includes records at huge heights)
+			if who == signer {
+				return "recent"
+			}
 		}
 	}
 	sorted := c09Sorted(set)
@@ -938,7 +1021,7 @@ func c09Mainnet() []string {
 	if err != nil || json.Unmarshal(b, &hs) != nil {
 		return nil
 	}
-	vals, err := bsctypes.ParseValidators(gs.GenesisValidatorHeader.Extra)
+	vals, err := c09ParseVals(gs.GenesisValidatorHeader.Extra)
 	if err != nil {
 		return nil
 	}
